@@ -111,9 +111,10 @@ def gen_heading(rng, doc, level=None, force_servings=None):
     doc.add(lines + [""])
 
 
-def recipe_block_lines(rng, text, style, container, extra=0):
+def recipe_block_lines(rng, text, style, container, extra=0, lead_blank=0):
     """returns (lines, index of first code line within lines, prefix removed from each code line);
-    extra: additional indentation of the recipe text itself (part of the block's content)"""
+    extra: additional indentation of the recipe text itself (part of the block's content);
+    lead_blank: blank lines between the opening fence and the first statement (fenced styles only; part of the block's content)"""
     code = [(" " * extra + l) if l.strip() else l for l in text.split("\n")]
     if style == "indented":
         body = ["    " + l if l.strip() else rng.choice(["", "    "]) for l in code]
@@ -121,8 +122,8 @@ def recipe_block_lines(rng, text, style, container, extra=0):
     else:
         fence = rng.choice(["```", "~~~", "````"])
         lang = {"recipe": "recipe", "new": "new-recipe"}[style]
-        body = [fence + lang] + code + [fence]
-        first, strip = 1, ""
+        body = [fence + lang] + [""] * lead_blank + code + [fence]
+        first, strip = 1 + lead_blank, ""
     if container == "top":
         return body, first, strip
     if container == "quote":
